@@ -81,7 +81,8 @@ fn run_job(job: &Job, seed: u64, proto: &Report) -> JobOut {
         }
         let inputs = attacks::preflight(&job.entry, &job.inputs, job.opts.max_bit_len, part);
         let st = check_op(&job.entry, &inputs, &job.opts, seed, part);
-        let ex = run_extra(&job.entry, &inputs, job.opts.max_bit_len, job.deep, seed, part);
+        let narrow = job.opts.ars.clone().unwrap_or_else(ArsBudget::quick);
+        let ex = run_extra(&job.entry, &inputs, job.opts.max_bit_len, job.deep, seed, &narrow, part);
         (st, ex)
     };
     let mut part = proto.fork();
@@ -188,6 +189,20 @@ fn main() {
             }
             let mut opts = OpOptions::new("C04", cfg.deep);
             opts.max_bit_len = cfg.max_bit_len;
+            // number of output positions of this entry (cost of the search grows with it)
+            let n_out = inputs.iter().find_map(|x| entry.reference(x).map(|v| v.len() - entry.n_input_positions(x))).unwrap_or(0);
+            if cfg.deep {
+                // logical budget of the deep configuration: 64 restarts x 10 000 nodes per target
+                // (every restart rebuilds the copy classes, so restarts dominate the cost of the
+                // many searches that dead-end within a few nodes); wide outputs: 8 positions, 32 restarts
+                opts.ars = Some(ArsBudget { restarts: if n_out > 8 { 32 } else { 64 }, nodes_per_restart: 10_000, max_changed: 48 });
+                if n_out > 8 {
+                    opts.max_positions = 8;
+                }
+            } else if cfg.max_bit_len >= 13 {
+                // k >= 14: every table pass is 16x the cost of k = 10
+                inputs.truncate(3);
+            }
             if matches!(kind, Kind::MapGet | Kind::MapInsert) {
                 // large circuits (k >= 13): keep the search affordable
                 opts.ars = Some(ArsBudget { restarts: if cfg.deep { 16 } else { 6 }, nodes_per_restart: 2000, max_changed: 24 });
@@ -297,7 +312,12 @@ fn main() {
     );
     rep.set(
         "configurations",
-        json!(configs.iter().map(|c| json!({"max_bit_len": c.max_bit_len, "nr_pow2range_cols": c.cols, "deep": c.deep, "range_only": c.range_only})).collect::<Vec<_>>()),
+        json!(configs
+            .iter()
+            .map(|c| json!({"max_bit_len": c.max_bit_len, "nr_pow2range_cols": c.cols, "range_only_subset": c.range_only,
+                "catalogue": if c.deep { "thorough" } else { "quick" }, "inputs_per_entry": if c.deep { 25 } else if c.max_bit_len >= 13 { 3 } else { 6 },
+                "ars": if c.deep { "64 restarts x 10000 nodes (wide outputs: 8 positions, 32 restarts)" } else { "32 restarts x 2000 nodes, 6 positions" }}))
+            .collect::<Vec<_>>()),
     );
     rep.set(
         "ars_totals",
